@@ -47,7 +47,7 @@ PROPS = {
                 nontrivial="history with at least one operation"),
     "C02": dict(streams=["tbl", "fix", "sdt", "misc"], exhaustive="", nontrivial="history with at least one operation"),
     "C03": dict(streams=["tbl", "fix"], exhaustive="", nontrivial="history with at least one add"),
-    "C04": dict(streams=["ent", "tbl", "fix", "misc"], exhaustive="",
+    "C04": dict(streams=["ent", "tbl", "fix", "misc"], exhaustive="every (device, function) pair x 4 buses (all 256 buses in the thorough tier) through each place a PCI bus/device/function is packed (VIOT, RIMT, SRAT, HEST x3, GAS::new_pci_config); every enum value of every enum-typed argument",
                 nontrivial="any entry / any history with an operation"),
     "C11": dict(streams=["ent", "fix", "tbl"], exhaustive="all subsets and all orders/repetitions up to length 4 (3 for the 8-option cache node) of each option family; all 2^7 subsets and all ordered triples of the TCPA server builders; ordered pairs/triples of the FADT exclusive setters",
                 nontrivial="at least one option call"),
